@@ -148,8 +148,8 @@ def _visible(interp, dec):
     sc = getattr(dec, 'scopes', ())
     if not sc:
         return True
-    cur = set(x.get_id() for x in interp.st.scopes)
-    return all(x.get_id() in cur for x in sc)
+    st = interp.st
+    return all(st.is_established(x) for x in sc)
 
 
 def _decomps(interp, t):
